@@ -139,7 +139,7 @@ async fn validate_stored_tree(
             // TODO: Read index hunks, count into the task per hunk. Then, we can
             // read hunks in parallel.
             for addr in entry.addrs {
-                let end = addr.start + addr.len;
+                let end = addr.start.saturating_add(addr.len);
                 block_lens
                     .entry(addr.hash.clone())
                     .and_modify(|l| *l = max(*l, end))
